@@ -1,0 +1,12 @@
+//go:build verif
+
+package detector
+
+// Re-export of the unexported selection step of MultiFinderPatternFinder for the verification harness
+// (/verif, property C06, work package detrest).  Compiled only with -tags verif.
+
+import "github.com/makiuchi-d/gozxing/qrcode/detector"
+
+func (this *MultiFinderPatternFinder) VerifSelectMultipleBestPatterns() ([][]*detector.FinderPattern, error) {
+	return this.selectMultipleBestPatterns()
+}
